@@ -15,7 +15,7 @@ from typing import Dict, Optional
 from .common import R, seg
 
 ANY = "any"  # the zero constant is homogeneous of every degree
-SAME = {"abs", "float", "max", "min", "sum", "np.sum", "np.max", "np.min", "np.abs", "np.absolute", "np.amax", "np.linalg.norm", "np.array", "tuple", "list", "np.mean", "np.ravel", "np.asarray", "np.fabs", "math.fabs", "np.hypot", "math.hypot", "math.fsum"}
+SAME = {"np.transpose", "abs", "float", "max", "min", "sum", "np.sum", "np.max", "np.min", "np.abs", "np.absolute", "np.amax", "np.linalg.norm", "np.array", "tuple", "list", "np.mean", "np.ravel", "np.asarray", "np.fabs", "math.fabs", "np.hypot", "math.hypot", "math.fsum"}
 HALF = {"np.sqrt", "math.sqrt"}
 DOUBLE = {"np.square"}
 PRODUCT = {"np.dot", "np.inner", "np.vdot", "np.multiply"}
@@ -107,7 +107,7 @@ class Homog:
         if isinstance(e, ast.UnaryOp) and isinstance(e.op, (ast.USub, ast.UAdd)):
             return self.deg(e.operand)
         if isinstance(e, ast.Attribute) and self.attr is not None:
-            a = self.attr(e)
+            a = self.attr(e, self) if getattr(self.attr, "wants_h", False) else self.attr(e)
             if a != "skip":
                 return a
         if isinstance(e, ast.BinOp) and isinstance(e.op, ast.Mult) and any(isinstance(x, (ast.List, ast.Tuple)) and x.elts and all(self.const(y) is not None for y in x.elts) for x in (e.left, e.right)):
@@ -142,7 +142,7 @@ class Homog:
                 out = self._add(out, self.deg(x))
             return out
         if isinstance(e, (ast.GeneratorExp, ast.ListComp)):
-            sub = Homog(self.r, self.ctx, self.seeds, self.attr, self.use_defs)
+            sub = type(self)(self.r, self.ctx, self.seeds, self.attr, self.use_defs)
             sub.defs = self.defs
             for g in e.generators:
                 it = g.iter
@@ -240,7 +240,7 @@ class Homog:
             return None
         _FOLLOWING.add(key)
         try:
-            sub = Homog(self.r, self.r.root(callee.qual), seeds)
+            sub = type(self)(self.r, self.r.root(callee.qual), seeds)
             # loop variables over a seeded parameter inherit its degree
             for f in ast.walk(callee.node):
                 if isinstance(f, ast.For):
@@ -312,10 +312,14 @@ class Flow:
 
     MAXSET = 4
 
-    def __init__(self, r: R, ctx, attr, call_result):
+    def __init__(self, r: R, ctx, attr, call_result, homog_cls=None):
         self.r, self.ctx, self.fi = r, ctx, ctx.fi
         self.attr, self.call_result = attr, call_result
+        self.homog_cls = homog_cls or Homog
+        self.cur_target = None
         self.stores = []  # (receiver text, field, degree set, node)
+        self.returns = []  # (degree set, node)
+        self.cur_env = {}
 
     def degs(self, e, env):
         names = sorted({x.id for x in ast.walk(e) if isinstance(x, ast.Name) and x.id in env})
@@ -332,7 +336,7 @@ class Flow:
                 seeds = {k: v for k, v in c.items() if v is not None}
             else:
                 seeds = c
-            h = Homog(self.r, self.ctx, {k: (v if v != ANY else ("const", 0)) for k, v in seeds.items()}, self.attr, use_defs=False)
+            h = self.homog_cls(self.r, self.ctx, {k: (v if v != ANY else ("const", 0)) for k, v in seeds.items()}, self.attr, use_defs=False)
             out.add(h.deg(e))
         return frozenset(out) if len(out) <= self.MAXSET else frozenset({None})
 
@@ -354,6 +358,8 @@ class Flow:
         return out
 
     def bind(self, tgt, src, env):
+        self.cur_env = env
+        self.cur_target = seg(tgt, 60)
         if isinstance(tgt, ast.Name):
             if isinstance(src, ast.Call):
                 res = self.call_result(src, 1)
@@ -406,6 +412,16 @@ class Flow:
             if isinstance(st.target, ast.Name):
                 self.bind(st.target, ast.BinOp(left=ast.Name(id=st.target.id, ctx=ast.Load()), op=st.op, right=st.value), env)
             return env
+        if isinstance(st, ast.Return) and st.value is not None:
+            self.cur_env = env
+            ds = self.degs(st.value, env)
+            if isinstance(st.value, ast.Name) and ds <= {None}:
+                # an object built here: the degree of the control points it was given
+                got = [d for recv, field, d, _ in self.stores if recv == st.value.id and field == "ctrlpoints"]
+                if got:
+                    ds = frozenset().union(*got)
+            self.returns.append((ds, st))
+            return None
         if isinstance(st, (ast.Return, ast.Raise)):
             return None
         if isinstance(st, ast.If):
@@ -494,3 +510,142 @@ def weight_homog(r: R, chk, quals, rule="WEIGHT-HOMOG"):
                        func=q, construct="control points not invariant under a scaling of the weights")
     chk.note(f"{rule}: {total} control-point store(s) of objects that also receive weights decided in {', '.join(quals)}")
     return total
+
+
+# ------------------------------------------------------------------------------------------------
+# RESULT-HOMOG: the curve a function returns is invariant under a scaling of the weights of its (rational) argument
+def result_homog(r: R, chk, quals, rule="RESULT-HOMOG", floor: int = 1):
+    """`curve` is rational: the function u -> C(u) does not change when every weight is multiplied by the same constant, and neither
+    does anything derived from it (its derivative).  `curve.fraction()` yields numerator and denominator, both of degree 1 in the
+    weights; the derivative helpers of the library are linear (degree of the argument); sums need equal degrees, products add,
+    quotients subtract.  Every returned curve has to come out with degree 0."""
+    total = 0
+    for q in quals:
+        ctx = r.root(q)
+        fi = ctx.fi
+        holder = {}
+
+        def attr(e, h):
+            if isinstance(e.value, ast.Name) and e.attr in ("ctrlpoints", "weights") and e.value.id in h.seeds and not isinstance(h.seeds[e.value.id], tuple):
+                return h.seeds[e.value.id] if e.attr == "ctrlpoints" else "skip"
+            if e.attr == "weights":
+                return Fraction(1)
+            if e.attr in ("ctrlpoints", "knotvector", "npts", "degree", "knots", "limits"):
+                return Fraction(0)
+            return "skip"
+
+        attr.wants_h = True
+
+        def call_result(call, n, ctx=ctx):
+            fl = holder["fl"]
+            f = call.func
+            if isinstance(f, ast.Attribute) and f.attr == "fraction" and not call.args:
+                return [Fraction(1)] * n if n == 2 else None
+            crs = [c for c in ctx.calls if c.node is call and c.callees]
+            names = {fn.qual for c in crs for fn in c.callees}
+            if names and all(nm.startswith("heavy.Calculus.") for nm in names):
+                return [Fraction(0)] * n  # derivative matrices of a knot vector
+            if names and all(nm.startswith("calculus.Derivate.") for nm in names) and len(call.args) == 1 and n == 1:
+                ds = fl.degs(call.args[0], fl.cur_env)
+                return [next(iter(ds))] if len(ds) == 1 and None not in ds else None
+            return None
+
+        fl = Flow(r, ctx, attr, call_result)
+        holder["fl"] = fl
+        seeds = {p_: Fraction(0) for p_ in fi.params if p_ not in ("self", "cls")}
+        fl.run(seeds)
+        for ds, node in fl.returns:
+            decided = [d for d in ds if d is not None]
+            if not decided:
+                chk.note(f"{rule}: {q}: the degree of `{seg(node, 40)}` could not be computed: not decided")
+                continue
+            total += 1
+            bad = sorted(d for d in decided if d != ANY and d != 0)
+            chk.ob(rule, f"{q}: `{seg(node, 40)}` is of degree 0 in the weights", not bad, loc=r.loc(ctx, node),
+                   detail="" if not bad else f"{q}: the curve returned by `{seg(node, 40)}` is homogeneous of degree {', '.join(str(b) for b in bad)} in the weights of the argument: multiplying all weights by a constant — the same rational curve — changes the returned derivative, so it is not the derivative of the curve (a numerator / denominator part of the quotient rule is returned without the division by W or W^2)",
+                   func=q, construct="returned curve not invariant under a scaling of the weights")
+    chk.floor(rule, f"returned curves decided in {', '.join(quals)}", total, floor)
+    return total
+
+
+# ------------------------------------------------------------------------------------------------
+# JOIN-HOMOG: the weights of a joined curve scale the same way on both sides of the junction
+class _HomogMix(Homog):
+    """records every sum / concatenation whose two sides have different decided degrees"""
+
+    MISMATCH = []
+    FLOW = None
+
+    def _add(self, a, b):  # noqa: D102 - same contract as Homog._add
+        out = Homog._add(a, b)
+        if out is None and a is not None and b is not None and a != ANY and b != ANY and a != b:
+            _HomogMix.MISMATCH.append((_HomogMix.FLOW.cur_target if _HomogMix.FLOW is not None else None, a, b))
+        return out
+
+
+    def follow(self, callee, call):
+        # an argument without a dimension of its own (literal weights of a polynomial operand): nothing to decide on this path
+        if any(self.deg(a) == ANY for a in call.args):
+            return None
+        return super().follow(callee, call)
+
+
+def join_homog(r: R, chk, qual: str, rule="JOIN-HOMOG"):
+    """A | B: multiplying every weight of A by a constant does not change A, so it may not change what the joined curve needs at the
+    junction.  The stored weights are a concatenation of A's part and B's part; if the two parts scale differently (degree d_A != d_B in
+    A's weights) the weight function cannot be continuous at the junction for every input, the junction knot cannot be reduced, and
+    the joined curve keeps more multiplicity there than the curve needs.  Two passes: degree in the weights of the left operand, degree
+    in the weights of the right operand; in each the list that reaches `.weights = ...` has to have one degree."""
+    ctx = r.root(qual)
+    fi = ctx.fi
+    params = [p for p in fi.params]
+    if len(params) < 2:
+        raise ValueError(f"{qual} is not a binary operator")
+    roots = {params[0]: params[0], params[1]: params[1]}
+    for a in ast.walk(fi.node):
+        if isinstance(a, ast.Assign) and len(a.targets) == 1 and isinstance(a.targets[0], ast.Name):
+            v = a.value
+            if isinstance(v, ast.Call) and isinstance(v.func, ast.Name) and v.func.id in ("copy", "deepcopy") and len(v.args) == 1 and isinstance(v.args[0], ast.Name) and v.args[0].id in roots:
+                roots[a.targets[0].id] = roots[v.args[0].id]
+    weight_stores = [a for a in ast.walk(fi.node) if isinstance(a, ast.Assign) and any(isinstance(t, ast.Attribute) and t.attr == "weights" for t in a.targets) and not (isinstance(a.value, ast.Constant) and a.value.value is None)]
+    chk.floor(rule, f"stores of the joined weights in {qual}", len(weight_stores), 1)
+    from .extra import _reaching_params  # noqa: F401  (closure over local definitions)
+
+    defs = {}
+    for a in ast.walk(fi.node):
+        if isinstance(a, ast.Assign):
+            for t in a.targets:
+                for nm in ast.walk(t):
+                    if isinstance(nm, ast.Name):
+                        defs.setdefault(nm.id, []).append(a.value)
+        elif isinstance(a, ast.AugAssign) and isinstance(a.target, ast.Name):
+            defs.setdefault(a.target.id, []).append(a.value)
+    feeding = set()
+    work = [a.value for a in weight_stores]
+    while work:
+        x = work.pop()
+        for nm in ast.walk(x):
+            if isinstance(nm, ast.Name) and nm.id not in feeding:
+                feeding.add(nm.id)
+                work.extend(defs.get(nm.id, []))
+    for side, (da, db) in (("left", (Fraction(1), Fraction(0))), ("right", (Fraction(0), Fraction(1)))):
+        def attr(e, h, da=da, db=db):
+            if e.attr == "weights" and isinstance(e.value, ast.Name) and e.value.id in roots:
+                return da if roots[e.value.id] == params[0] else db
+            if e.attr in ("ctrlpoints", "knotvector", "npts", "degree", "knots", "limits"):
+                return Fraction(0)
+            return "skip"
+
+        attr.wants_h = True
+        fl = Flow(r, ctx, attr, lambda call, n: None, homog_cls=_HomogMix)
+        _HomogMix.MISMATCH, _HomogMix.FLOW = [], fl
+        try:
+            fl.run({})
+        finally:
+            found = [m for m in _HomogMix.MISMATCH if m[0] is not None and (m[0] in feeding or m[0].endswith(".weights"))]
+            _HomogMix.MISMATCH, _HomogMix.FLOW = [], None
+        ok = not found
+        st = weight_stores[0]
+        chk.ob(rule, f"{qual}: both sides of the junction scale alike in the weights of the {side} operand", ok, loc=r.loc(ctx, st),
+               detail="" if ok else f"{qual}: in `{found[0][0]}` a part of degree {found[0][1]} and a part of degree {found[0][2]} in the weights of the {side} operand are put together and stored by `{seg(st, 50)}`: multiplying all weights of the {side} operand by a constant (the same curve) moves the two sides of the junction apart, so the weight function is continuous there only by accident and the junction knot keeps more multiplicity than the curve needs (each side has to be scaled BY the other side's junction weight, not by its inverse)",
+               func=qual, construct="junction weights scale differently on the two sides")
